@@ -260,7 +260,8 @@ def dedupFetchEnv (cfg : Cfg) (tbl : Nat → Option ORes) (c cMid : Cache) (now 
     -- not coalesced, never looked up: straight to the origin (the Range header is forwarded)
     let fu := fetchUpstream cfg tbl cMid now (upReq r range) rangePresent
     match fu.out with
-    | .notCacheable => directFallback tbl fu.cache r (if fu.rangeDropped then none else range) fu.log fu.rangeDropped
+    -- the fallback re-sends the client's ORIGINAL request: the 416 retry removed Range only from its own clone
+    | .notCacheable => directFallback tbl fu.cache r range fu.log fu.rangeDropped
     | f => { out := f, label := .miss, cache := fu.cache, log := fu.log, rangeDropped := fu.rangeDropped }
   else
     match lookup c r.res r.query with
